@@ -8,7 +8,7 @@ META = {
     "bounds": {
         "quick": "18 binary operators x 8 operand-wrapper combinations x 6 operand type pairs, 2 unary operators, 10 compound assignments and "
                  "pre/post ++/-- on tainted and tainted_volatile operands; every operand full-width symbolic; tainted_volatile operands live in B32 memory",
-        "thorough": "same with 14 type pairs",
+        "thorough": "same with all 100 ordered pairs of the ten standard integer types",
     },
     "outside": "floating-point operands; operand values for which the plain C++ expression is undefined (division by zero is matched as 'both "
                "undefined'; out-of-range shifts and signed overflow are not distinguished from the compiler's choice); combinations that do not compile",
@@ -304,8 +304,8 @@ def jobs(tier, seed):
     T = BYTAG
     pairs = [("int", "int"), ("uchar", "schar"), ("ullong", "int"), ("long", "uint"), ("short", "llong"), ("schar", "schar")]
     if tier == "thorough":
-        pairs += [("uint", "uint"), ("ushort", "short"), ("llong", "ullong"), ("ulong", "long"), ("int", "uchar"), ("schar", "ullong"),
-                  ("ushort", "ushort"), ("long", "long")]
+        names = ["schar", "uchar", "short", "ushort", "int", "uint", "long", "ulong", "llong", "ullong"]
+        pairs = [(x, y) for x in names for y in names]        # every ordered pair of the ten standard integer types
     out = []
     for an, bn in pairs:
         a, b = T[an], T[bn]
